@@ -53,3 +53,92 @@ PROPS = {
         "level_note": LEVEL_NOTE_SRV,
     },
 }
+
+def srv_prop(mod, expect, proj, text, extra_suites=None, tags=None, assumptions=None, audit=None):
+    suites = {"srv": {"kind": "srv", "projection": proj}}
+    if tags:
+        suites["srv"]["oracle_tags"] = tags
+    if extra_suites:
+        suites.update(extra_suites)
+    return {
+        "theorems": [mod], "expect_theorems": expect,
+        "audit_files": ["Narwhal/Model/Server.lean", "Narwhal/Model/Id.lean", "Narwhal/Model/Acl.lean", "Narwhal/Lemmas/Emit.lean",
+                        "Narwhal/Lemmas/Assoc.lean", "Narwhal/Lemmas/Checks.lean", "Narwhal/Lemmas/Invariants.lean"] + (audit or []),
+        "suites": suites, "rule": SRV_RULE, "trusted_base": SRV_TRUST, "level_text": text, "level_note": LEVEL_NOTE_SRV,
+        "assumptions": assumptions or [],
+    }
+
+ACL_SUITE = {"acl": {"kind": "srv", "args": {"mode": "acl"}, "cases": {"quick": 200, "thorough": 5000}}}
+
+PROPS.update({
+    "C01": srv_prop("Narwhal.Theorems.C01",
+        ["Narwhal.Server.C01_confinement_step", "Narwhal.Server.C01_confinement_members", "Narwhal.Server.C01_confinement",
+         "Narwhal.Server.message_only_from_broadcast"],
+        {"frames": ["MESSAGE"]},
+        "Proved in Lean: in every state reachable by any history (any modulator outcomes), a MESSAGE is produced only by a BROADCAST, goes only to "
+        "connections of current members permitted by the read list (reader cache = members filtered by read ACL is an inductive invariant), names the "
+        "request's channel and the sender's own NID, and the publisher is a member permitted by the publish list. Departed users: C05. Tied by srv/acl "
+        "correspondence and a membership oracle on the real server.",
+        extra_suites={"acl": dict(ACL_SUITE["acl"], projection={"frames": ["MESSAGE"]})}, tags=["C01"],
+        assumptions=["interleavings of concurrently suspended requests (modulator latency) are covered by the `sched` suite where claimed, not by these theorems"]),
+    "C02": srv_prop("Narwhal.Theorems.C01",
+        ["Narwhal.Server.C02_ack_iff_delivered", "Narwhal.Server.C02_exactly_once"],
+        {"ops": ["broadcast"], "frames": ["MESSAGE", "BROADCAST_ACK", "ERROR"]},
+        "Proved in Lean: BROADCAST_ACK is sent iff the admission check passed, and then the MESSAGE frames are exactly one per connection (other than "
+        "the sender's) of every user in the reader list, with the accepted payload; exactly-once is proved from list-level hypotheses (no duplicate "
+        "readers, a connection registered once under one user). Queueing/batching/partial writes: C15. Tied by srv/acl correspondence (payload bytes "
+        "compared) and a delivery oracle.",
+        extra_suites={"acl": dict(ACL_SUITE["acl"], projection={"ops": ["broadcast"], "frames": ["MESSAGE", "BROADCAST_ACK", "ERROR"]})}, tags=["C02"]),
+    "C04": srv_prop("Narwhal.Theorems.C04",
+        ["Narwhal.Server.refused_is_fail", "Narwhal.Server.C04_refused_noop", "Narwhal.Server.C04_refused_closes", "Narwhal.Server.C04_owner_gates",
+         "Narwhal.Server.C04_on_behalf_gates", "Narwhal.Server.C04_member_gates", "Narwhal.Server.C04_ack_requires_check",
+         "Narwhal.Server.C04_one_owner", "Narwhal.Server.C04_successor_is_member"],
+        {"ops": ["setacl", "getacl", "setconfig", "getconfig", "members", "join-onbehalf", "leave-onbehalf", "leave", "close", "broadcast", "join"]},
+        "Proved in Lean for every state and caller: owner-only and member-only requests are acknowledged only when the caller was owner / member in the "
+        "pre-state; a refused request is exactly `fail` (state unchanged and one ERROR when recoverable; otherwise only the caller's own disconnection); "
+        "in every reachable state each channel has members and one owner who is a member; a successor is a remaining member.",
+        tags=["C04"]),
+    "C06": srv_prop("Narwhal.Theorems.C06",
+        ["Narwhal.Server.C06_connecting_inert", "Narwhal.Server.C06_connected_inert", "Narwhal.Server.C06_handshake_no_channel_effect",
+         "Narwhal.Server.C06_authed_terminal"],
+        {"phases": ["0", "1"]},
+        "Proved in Lean (C2S): before CONNECT resp. IDENTIFY/AUTH every other frame yields one ERROR + close and changes neither channels, index nor "
+        "router; handshake steps never touch channel state; after authentication CONNECT/IDENTIFY/AUTH are refused. S2M/M2S dispatch: table obligations "
+        "regenerated from modulator/src/conn.rs and the `links` suite.",
+        tags=["C06"]),
+    "C07": srv_prop("Narwhal.Theorems.C06",
+        ["Narwhal.Server.C07_nid_wellformed", "Narwhal.Server.C07_identify_exclusive", "Narwhal.Server.whitespace_not_alnum"],
+        {"ops": ["identify", "auth", "broadcast", "moddirect", "close"], "frames": ["IDENTIFY_ACK", "AUTH_ACK", "MESSAGE", "ERROR", "EVENT"]},
+        "Proved in Lean: an assigned username is non-empty and free of whitespace and '@' for every input string (uses the regenerated Unicode tables: no "
+        "whitespace code point is alphanumeric, decided by the kernel on every run); IDENTIFY is acknowledged only for a name no live connection holds; "
+        "MESSAGE `from` is the sender's identity (C01_confinement_step). Simultaneous IDENTIFY across worker threads is trusted to DashMap's entry lock.",
+        tags=["C07"]),
+    "C08": srv_prop("Narwhal.Theorems.C01", ["Narwhal.Server.C08_gate"],
+        {"ops": ["broadcast"], "phases": ["2"]},
+        "Proved in Lean: with a modulator, every MESSAGE of a broadcast carries exactly the payload the modulator declared valid for that request (the "
+        "altered one if altered), and an invalid / failed verdict yields no MESSAGE, only an ERROR with the broadcast's id that closes the publisher. "
+        "The S2M client's reply-to-verdict mapping is tied by the `s2m` suite.",
+        tags=["C08"]),
+    "C09": srv_prop("Narwhal.Theorems.C06", ["Narwhal.Server.C09_auth_only_on_success", "Narwhal.Server.C09_identify_refused"],
+        {"ops": ["auth", "identify"], "phases": ["1"]},
+        "Proved in Lean: with modulator auth a connection becomes authenticated only in the step that handled an AUTH on that connection whose outcome "
+        "was success(u), with identity exactly u@domain; failure, challenge and error outcomes never authenticate; IDENTIFY is refused.",
+        tags=["C09"]),
+    "C14": srv_prop("Narwhal.Theorems.C14",
+        ["Narwhal.Server.C14_join_admission", "Narwhal.Server.C14_members_after_join", "Narwhal.Server.C14_config_caps",
+         "Narwhal.Server.C14_acl_cap", "Narwhal.Server.C14_payload_caps"],
+        {"ops": ["join", "join-onbehalf", "setacl", "setconfig", "broadcast"]},
+        "Proved in Lean for every limit value: JOIN is admitted only below max_clients, max_subscriptions and (when creating) max_channels; config "
+        "changes stay within the server caps; an accepted ACL has at most max_clients entries; accepted payloads are within server and channel limits. "
+        "max_connections / max_inflight / counter release are checked by the `limits` suite on the real server.",
+        tags=["C14"]),
+    "C18": srv_prop("Narwhal.Theorems.C18",
+        ["Narwhal.Server.C18_refused_no_event", "Narwhal.Server.C18_join_events", "Narwhal.Server.C18_join_targets",
+         "Narwhal.Server.C18_join_notify_failed", "Narwhal.Server.C18_leave_events", "Narwhal.Server.C18_handover_events",
+         "Narwhal.Server.C18_no_spurious_handover", "Narwhal.Server.C18_one_event_per_connection"],
+        {"frames": ["EVENT"]},
+        "Proved in Lean: the exact EVENT set of each admitted JOIN / LEAVE / hand-over (kind, channel, NID, owner flag; every member connection except "
+        "the requester's), none for refused requests or for a join whose notification the modulator refused; one copy per connection under the router "
+        "invariants.",
+        tags=["C18"]),
+})
